@@ -61,4 +61,35 @@ for depth in (0, 1, 2):
             break
     if w:
         break
+if w is None:
+    import threading
+
+    class Unpicklable(Exception):
+        def __init__(self, msg):
+            super().__init__(msg)
+            self.lock = threading.Lock()
+
+    @task(namespace=ns)
+    def boom2():
+        raise Unpicklable("locked")
+
+    @task(namespace=ns)
+    def top2():
+        return [boom2()]
+
+    s = quiet_scheduler()
+    n += 1
+    err = None
+    try:
+        with silence():
+            s.run(top2())
+    except BaseException as e:
+        err = e
+    if type(err).__name__ != "Unpicklable" or str(err) != "locked":
+        w = dict(scenario="task raises an exception whose payload cannot be pickled", observed=f"run raised {type(err).__name__}: {err}")
+    else:
+        jobs = s.backend.session.query(DbJob).all()
+        bad = {j.task.fullname: j.status for j in jobs if j.task.fullname.split(".")[-1] in ("boom2", "top2") and j.status != "FAILED"}
+        if bad:
+            w = dict(scenario="unpicklable error", observed=f"jobs on the failing path not recorded FAILED: {bad}")
 finish(w is not None, witness=w, evaluations=n, bound="failing leaf at depth 0..2 inside dict/list containers, two executions each")
